@@ -19,10 +19,10 @@ pub fn uf_quadrant(x: TwoFloat) -> (TwoFloat, i8) {
 }
 
 //@ id=C16 tier=quick to=1800 cfg=std exh=1 stub=1 stubs="quadrant, restricted_sin, restricted_cos -> UFs" desc="sin_cos(x) returns exactly (sin(x), cos(x)) bit-for-bit for EVERY bit pattern x, every quadrant value and every pure function in place of the argument reduction and the two kernels: the three independent dispatch tables agree"
-#[cfg_attr(kani, kani::proof)]
-#[cfg_attr(kani, kani::stub(twofloat::functions::trigonometry::quadrant, uf_quadrant))]
-#[cfg_attr(kani, kani::stub(twofloat::functions::trigonometry::restricted_sin, uf_rsin))]
-#[cfg_attr(kani, kani::stub(twofloat::functions::trigonometry::restricted_cos, uf_rcos))]
+#[cfg_attr(all(kani, feature = "stubs"), kani::proof)]
+#[cfg_attr(all(kani, feature = "stubs"), kani::stub(twofloat::functions::trigonometry::quadrant, uf_quadrant))]
+#[cfg_attr(all(kani, feature = "stubs"), kani::stub(twofloat::functions::trigonometry::restricted_sin, uf_rsin))]
+#[cfg_attr(all(kani, feature = "stubs"), kani::stub(twofloat::functions::trigonometry::restricted_cos, uf_rcos))]
 pub fn c16_sin_cos_consistent() {
     let x = any_tf();
     let (s2, c2) = x.sin_cos();
@@ -34,10 +34,10 @@ pub fn c16_sin_cos_consistent() {
 }
 
 //@ id=C16 tier=quick to=1800 cfg=std exh=1 stub=1 stubs="quadrant, restricted_sin, restricted_cos -> UFs" desc="quadrant dispatch of sin and cos for every valid x: quadrant 0..3 selects (s,c), (c,-s), (-s,-c), (-c,s) of the kernels applied to the reduced argument"
-#[cfg_attr(kani, kani::proof)]
-#[cfg_attr(kani, kani::stub(twofloat::functions::trigonometry::quadrant, uf_quadrant))]
-#[cfg_attr(kani, kani::stub(twofloat::functions::trigonometry::restricted_sin, uf_rsin))]
-#[cfg_attr(kani, kani::stub(twofloat::functions::trigonometry::restricted_cos, uf_rcos))]
+#[cfg_attr(all(kani, feature = "stubs"), kani::proof)]
+#[cfg_attr(all(kani, feature = "stubs"), kani::stub(twofloat::functions::trigonometry::quadrant, uf_quadrant))]
+#[cfg_attr(all(kani, feature = "stubs"), kani::stub(twofloat::functions::trigonometry::restricted_sin, uf_rsin))]
+#[cfg_attr(all(kani, feature = "stubs"), kani::stub(twofloat::functions::trigonometry::restricted_cos, uf_rcos))]
 pub fn c16_sin_cos_dispatch() {
     let x = any_valid();
     let s = x.sin();
@@ -65,10 +65,10 @@ pub fn c16_sin_cos_dispatch() {
 }
 
 //@ id=C16 tier=quick to=1800 cfg=std exh=1 stub=1 stubs="quadrant, restricted_tan, &f64/&TwoFloat -> UFs" desc="tan dispatch for every valid x: restricted_tan(r) in even quadrants, -1/restricted_tan(r) in odd quadrants, r the reduced argument"
-#[cfg_attr(kani, kani::proof)]
-#[cfg_attr(kani, kani::stub(twofloat::functions::trigonometry::quadrant, uf_quadrant))]
-#[cfg_attr(kani, kani::stub(twofloat::functions::trigonometry::restricted_tan, uf_rtan))]
-#[cfg_attr(kani, kani::stub(<&f64 as core::ops::Div<&twofloat::TwoFloat>>::div, crate::uf::uf_div_ft))]
+#[cfg_attr(all(kani, feature = "stubs"), kani::proof)]
+#[cfg_attr(all(kani, feature = "stubs"), kani::stub(twofloat::functions::trigonometry::quadrant, uf_quadrant))]
+#[cfg_attr(all(kani, feature = "stubs"), kani::stub(twofloat::functions::trigonometry::restricted_tan, uf_rtan))]
+#[cfg_attr(all(kani, feature = "stubs"), kani::stub(<&f64 as core::ops::Div<&twofloat::TwoFloat>>::div, crate::uf::uf_div_ft))]
 pub fn c16_tan_dispatch() {
     let x = any_valid();
     let t = x.tan();
